@@ -689,7 +689,7 @@ fn drive_fault(run: u64, seed: u64, index_base: u64, port: u16, quiet: Duration)
         let mut conns = 0;
         for (l, m) in seen {
             for (h, out) in m {
-                if out != "refused" && l != "uE" {
+                if out != "refused" && !l.starts_with('u') {
                     conns += 1;
                 }
                 ev.push(json!({"ev": "probe", "run": run, "l": l, "h": h, "out": out}));
